@@ -21,6 +21,12 @@ var c04Hidden = []string{
 	`<div style="visibility: collapse">%w</div>`,
 	`<span aria-hidden="true">%w</span>`,
 	`<div hidden><p>%w</p></div>`,
+	`<figcaption hidden>%w <a href="/l">x</a></figcaption>`,
+	`<figcaption style="display:none">%w</figcaption>`,
+	`<script style="display:block">var %w = 1;</script>`,
+	`<style style="display:block">.%w{color:red}</style>`,
+	`<p style="DISPLAY: none">%w</p>`,
+	`<span style="VISIBILITY:hidden">%w</span>`,
 }
 
 // list 2: not reading content (allowed inside retained data tables and figures)
